@@ -52,7 +52,7 @@ prop('C12', level='proof', modules=['Polyseed.Props.C12'], suites=[],
      technique='Lean 4 proof (byte-wise XOR algebra, all masks) + API-history correspondence with recorded KDF calls',
      assumptions=['the injected KDF is a deterministic function of its inputs'])
 prop('C18', level='proof', modules=['Polyseed.Props.C18'], suites=[],
-     api=dict(cone=['inject', 'create', 'free', 'encode', 'crypt', 'keygen', 'decode', 'decodex', 'load'], weights=dict(inject=6, roundtrip=2, crypt=1, faults=1)),
+     api=dict(cone=['inject', 'create', 'free', 'encode', 'crypt', 'keygen', 'decode', 'decodex', 'load'], weights=dict(inject=6, roundtrip=2, crypt=1, faults=1)), extra='extra_syms_undef',
      text='Theorems inject_replaces / inject_last_wins / inject_optional (libc time, malloc, free exactly when the entry is NULL) / inject_frame, create_events (alloc, clock, 19 random bytes, wipe - in this order, nothing else), create_secret (secret = the 19 bytes with the top two bits of the last dropped; injective on the 150 bits), create_junk_independent. S-api injects two distinguishable stub sets with each optional entry present/NULL (libc interposed with --wrap), overwrites and unmaps the caller struct after injection, and checks which function served every dependency call.',
      note=PROOF_NOTE + 'Modelled, not verified: dependency.c, polyseed_create. "No other source of randomness or time" is additionally checked by the undefined-symbol inventory of the objects (S-syms).',
      technique='Lean 4 proof (event theorems over all random/clock outputs) + API-history correspondence with function identities',
@@ -75,6 +75,17 @@ prop('C15', level='proof', modules=['Polyseed.Props.C15'], suites=[],
      note=PROOF_NOTE + 'Malloc contract (a block handed out is not live; ids unique) is the hypothesis Inv.',
      technique='Lean 4 proof (ledger invariant by induction over histories, all fault schedules) + exhaustive fault enumeration over a fixed history',
      assumptions=['malloc contract; handles passed to the library are live'])
+prop('C14', level='other', modules=['Polyseed.Props.C14'], suites=[],
+     api=dict(cone=None, weights=dict(garbage=8, badtokens=3, faults=2, unsupported=1, roundtrip=1), sessions=4), extra='extra_malformed',
+     text='Theorems strSplit_bounds (never more than 16 tokens stored, never more than 17 returned), lazyNfkd_length, load/create/decode/decodeExplicit status-range theorems (only documented statuses, every input), failed_call_no_seed (any call, input, oracle and allocation outcome), termination of every model function (accepted by Lean as total definitions). Runtime: the malformed stream (raw bytes, invalid UTF-8, strings around POLYSEED_STR_SIZE and up to 40000 bytes, separator floods, mutated phrases, random/mutated 32-byte buffers) through both decoders, crypt and load with every input flush against a PROT_NONE page, output buffers likewise, ASan+UBSan, inputs compared before/after.', note=PROOF_NOTE, technique='Lean 4 theorems on the model (totality, status ranges, capacity bounds) + sanitizer/guard-page observation', assumptions=[],
+     explanation='model: every function is total by construction (structural or fuel-bounded recursion), returns only documented statuses, keeps within its buffer capacities and hands out no seed on failure (theorems, all inputs); code: every input string and buffer is placed flush against a PROT_NONE page, output buffers likewise, the library runs under ASan+UBSan, inputs are compared before/after, the harness allocator checks the ledger; what is NOT shown: the memory accesses of the compiled code on inputs outside the explored ones')
+prop('C20', level='other', modules=['Polyseed.Props.C20'], suites=[], extra='extra_threads',
+     text='Theorems globals_unchanged (every call other than inject/enable_features leaves the dependency table and the feature mask alone), other_thread_frame = C13.frame (a call never changes a seed other than its argument or the fresh block it obtains), on top of C15 (block identities never collide). Runtime: writable-symbol inventory of the objects built from the tree (complete: exactly the dependency table, the feature mask, the GF table and the registry array) and N threads x iterations under ThreadSanitizer with per-thread digests of every observable result compared with the serial run, yields injected through the dependency stubs.', note=PROOF_NOTE, technique='Lean 4 interleaving theorem on the model + ThreadSanitizer + writable-symbol inventory', assumptions=[],
+     explanation='model: calls of different threads on disjoint seeds commute (each reads only the injected-dependency table, the feature mask and its own seeds); code: the writable-symbol inventory of the objects built from the tree is exactly {polyseed_deps, reserved_features, polyseed_mul2_table} (complete), and N threads run under ThreadSanitizer with per-thread results compared with the serial run (schedules sampled)')
+prop('C16', level='other', modules=['Polyseed.Props.C16'], suites=[],
+     api=dict(cone=None, weights=dict(roundtrip=3, crypt=3, faults=2, unsupported=2, storage=2, badtokens=1), sessions=3), extra='extra_stack',
+     text='Theorems free_wipes_first / freeEvents_wipe (a seed block - freed by the caller or by the library on its error paths - is wiped through the injected wipe over its whole size immediately before the injected free), decodeExplicit_wipes, decode_wipes (phrase copy, token pointers, polynomial on EVERY exit path; the detection loop index array whenever the loop ran), create_wipes, encode_wipes, crypt_wipes (polynomial, mask, normalised password), load_wipes. Runtime: memzero events of every op compared with the model (S-api), and the stack scan: 19 function/exit-path cases on a dedicated pre-patterned stack, scanned for secret bytes, indices (16/32/64-bit), phrase, password, mask, against a control run; gcc -O0/-O2 (thorough: + -O1/-O3 and clang -O0/-O2/-O3).', note=PROOF_NOTE, technique='Lean 4 theorem on the model wipe discipline + stack scan', assumptions=[],
+     explanation='model: every temporary that receives secret-derived data is the target of an injected wipe of its full size on every exit path, and a freed seed block is wiped first (theorems over all inputs); code: memzero events of every op compared with the model, plus a scan of the dead stack after every API function x exit path x compiler setting')
 prop('C17', level='proof', modules=['Polyseed.Props.C17'], suites=[],
      api=dict(cone=['encode'], weights=dict(roundtrip=6, variants=1), sessions=3), extra='extra_c17',
      text='Theorems maxPhrase_lt_all (for every registered language 16*longest word + 15*separator < POLYSEED_STR_SIZE: kernel-evaluated on the tables and the constant of the CURRENT tree), encodeTmp_length_le (every phrase, all seeds and coins, is at most that long), encode_no_overflow (the str_tmp overflow outcome of the model is unreachable), encode_output_fits (returned size = length of the output < buffer size), lazyNfkd_no_truncation. The extremal witness seed of every language is encoded on the real code under ASan with the caller buffer against a guard page, and decoded back.',
@@ -94,10 +105,10 @@ prop('C07', level='proof', modules=['Polyseed.Props.C07'], suites=['find'], extr
      assumptions=['plain char signed (model parameter sgn = true); see C19'])
 prop('C08', level='proof', modules=['Polyseed.Props.C08'], suites=['find'],
      api=dict(cone=['decode', 'decodex'], weights=dict(variants=8, badtokens=4, roundtrip=1)),
-     text='(under construction) find_exact_iff for the exact languages; S-find exhaustive per word',
+     text='Theorems find_exact_iff (Japanese, Korean, both Chinese lists: a token is accepted for a word iff it IS the word, for every NUL-free token; from bsearch/linear-search soundness + compare_str = 0 iff equal + the table certificates), exact_languages, findWord_sound (whatever index the search returns compares equal under the language comparator, all languages, all tokens). For the six abbreviating languages the rule (exact, or prefix of at least four letters; accents ignored in Spanish/French) is checked EXHAUSTIVELY per word on the real code and the model: every prefix length x every subset of accents kept/dropped x continuations (S-find), and through the API with real NFKD in composed and decomposed form (S-api). Open finding D6 (non-accent non-ASCII bytes are skipped too) is a KNOWN-FINDING; the full iff for the abbreviating languages is therefore not claimed as a theorem (find_iff_rule would be false without a Latin-domain hypothesis).',
      note=PROOF_NOTE, technique='Lean 4 proof + exhaustive correspondence on find_word', assumptions=[])
 prop('C19', level='other', modules=['Polyseed.Props.C19'], suites=[], extra='extra_sign',
-     text='(under construction)', note=PROOF_NOTE, technique='Lean 4 theorem about the model parameter + two builds', assumptions=[],
+     text='Theorems rank_is_signed_order / sgnCmp_is_signed / isNeg_is_signed / isNeg_is_unsigned / rank_facts: after the repair of D2 the model has NO signedness parameter (every comparison goes through the unsigned byte value, as compare_char and IS_NON_ASCII do in the code) and the explicit order is exactly the signed-char order the shipped sorted lists were built for. Runtime (S-sign): the same unit and API scripts (all languages; composed, decomposed, abbreviated, unaccented phrases; non-ASCII passwords) on a -fsigned-char and a -funsigned-char build, each compared with the one model and with each other - a difference is reported with the failing input.', note=PROOF_NOTE, technique='Lean 4 theorem about the model parameter + two builds', assumptions=[],
      explanation='two char-signedness builds of the tree run the same scripts; their transcripts are compared with each other and with the model')
 prop('C09', level='proof', modules=['Polyseed.Props.C09'], suites=['detect'],
      api=dict(cone=['decode', 'decodex'], weights=dict(badtokens=5, mixed=4, variants=3, faults=2, garbage=2, roundtrip=1)),
@@ -480,6 +491,218 @@ def extra_faults(ctx, pid, viol, stats):
         if mask == 5:
             st['samples'].append([l for l in script if not l.startswith('free')][:14])
     st['hist']['fault schedules'] = total
+    st['wall'] = time.time() - t0
+
+
+def extra_stack(ctx, pid, viol, stats):
+    """S-stack: every API function x exit path on a dedicated pre-patterned stack, scanned afterwards for secret
+    bytes, word indices (16/32/64-bit), phrase text, password and mask; paired with a control run (harness/stackscan.c)."""
+    import re
+    t0 = time.time()
+    st = stats.setdefault('stack', dict(evaluations=0, distinct=set(), samples=[], variants=[], wall=0.0, exhaustive=True, mismatches=0, hist={},
+                                        note='19 function/exit-path cases x 7 residue kinds per compiler setting; residue present in the control run (API call skipped) does not count'))
+    settings = [('gcc', '-O2'), ('gcc', '-O0')]
+    if ctx.thorough:
+        settings += [('gcc', '-O3'), ('gcc', '-O1'), ('clang', '-O0'), ('clang', '-O2'), ('clang', '-O3')]
+    for cc, opt in settings:
+        name = 'stackscan-%s%s' % (cc, opt)
+        exe, err = core.build_aux(ctx.tree, name, 'stackscan.c', cc, [opt, '-DNDEBUG'], ['-Wl,-z,now'])
+        st['variants'].append('%s %s' % (cc, opt))
+        if err:
+            viol.append(Violation('crash', 'stackscan-build', err, suite='stack'))
+            continue
+        r = core.run([exe], stderr=__import__('subprocess').PIPE)
+        if r.returncode != 0:
+            viol.append(Violation('crash', 'stackscan-crash', 'stack scan program (%s %s) exited with %d: %s' % (cc, opt, r.returncode, (r.stderr or '')[-800:]), suite='stack', found_input=True,
+                                  script=['harness/stackscan.c built with %s %s' % (cc, opt)]))
+            continue
+        for line in r.stdout.split('\n'):
+            m = re.match(r'SCAN case=(\S+) kind=(\S+) hits=(\d+) control=(\d+) first=(-?\d+)', line)
+            if not m:
+                continue
+            st['evaluations'] += 1
+            case, kind, hits, ctl = m.group(1), m.group(2), int(m.group(3)), int(m.group(4))
+            st['distinct'].add('%s %s %s %s' % (cc, opt, case, kind))
+            if hits > ctl:
+                k = 'idx' if kind.startswith('indices') else kind
+                viol.append(Violation('oracle', 'stack:%s:%s' % (case.split('/')[0], k),
+                                      'after polyseed_%s returned (%s %s), the dead stack still holds %s (%d window matches, %d in the control run without the call), first at stack offset %s' % (
+                                          case, cc, opt, {'idx': 'the 16 word indices'}.get(k, 'the ' + kind), hits, ctl, m.group(5)),
+                                      script=['cc=%s opt=%s' % (cc, opt), 'case=%s' % case, 'kind=%s' % kind, line], suite='stack', variant='%s %s' % (cc, opt), found_input=True))
+        if not st['samples']:
+            st['samples'].append([l for l in r.stdout.split('\n') if 'decode/ok' in l][:4])
+    st['wall'] = time.time() - t0
+
+
+# `languages` (lang.c) is an array of pointers that is not const-qualified itself; like polyseed_mul2_table it is never written
+WRITABLE_ALLOWED = {'polyseed_deps', 'reserved_features', 'polyseed_mul2_table', 'languages'}
+UNDEF_ALLOWED = {'time', 'malloc', 'free', 'memcpy', 'memset', 'memcmp', 'strcmp', 'strlen', 'bsearch', '__assert_fail', '__stack_chk_fail',
+                 '_GLOBAL_OFFSET_TABLE_', 'memmove'}
+
+
+def symbol_inventory(ctx, viol, st, want_writable=True, want_undef=True):
+    """S-syms: section-aware symbol tables of the objects compiled from the tree (gcc -O2 and -O0)."""
+    import re
+    import subprocess
+    objdir = os.path.join(ctx.tree.dir, 'objs')
+    writable, undef = set(), set()
+    for opt in ('-O2', '-O0'):
+        d = objdir + opt
+        if not os.path.isdir(d):
+            os.makedirs(d)
+            srcs = core.lib_sources()
+            r = core.run(['gcc', opt, '-DNDEBUG', '-w', '-c'] + core.INC + srcs, cwd=d)
+            if r.returncode != 0:
+                viol.append(Violation('crash', 'objs-build', 'library objects do not build: ' + r.stdout[-1500:], suite='syms'))
+                return writable, undef
+        objs = [os.path.join(d, f) for f in sorted(os.listdir(d)) if f.endswith('.o')]
+        out = core.run(['objdump', '-t'] + objs).stdout
+        for line in out.split('\n'):
+            p = line.split()
+            if len(p) >= 5 and re.match(r'^[0-9a-f]{8,}$', p[0]):
+                sec, name = p[-3], p[-1]
+                flags = line[17:24] if len(line) > 24 else ''
+                if (sec.startswith('.data') and not sec.startswith('.data.rel.ro')) or sec.startswith('.bss') or sec.startswith('.tdata') or sec.startswith('.tbss') or sec == '*COM*':
+                    if name not in (sec,) and not name.startswith('.'):
+                        writable.add(name)
+        nm = core.run(['nm', '-u'] + objs).stdout
+        for line in nm.split('\n'):
+            p = line.split()
+            if len(p) == 2 and p[0] == 'U' and not p[1].startswith('polyseed_'):
+                undef.add(p[1])
+    st['evaluations'] += len(writable) + len(undef)
+    st['distinct'] |= {'W:' + w for w in writable} | {'U:' + u for u in undef}
+    st['hist']['writable symbols'] = sorted(writable)
+    st['hist']['undefined non-polyseed symbols'] = sorted(undef)
+    if want_writable:
+        for w in sorted(writable - WRITABLE_ALLOWED):
+            viol.append(Violation('oracle', 'writable-symbol:' + w, 'the library objects contain writable static storage "%s" besides the injected-dependency table, the feature mask and the GF table: shared mutable state not covered by the model' % w,
+                                  script=['objdump -t <objects built from the tree>', w], suite='syms', found_input=True))
+    if want_undef:
+        for u in sorted(undef - UNDEF_ALLOWED):
+            viol.append(Violation('oracle', 'undefined-symbol:' + u, 'the library objects import "%s": a dependency that is not injected (only time/malloc/free as NULL fall-backs and memory/string helpers are expected)' % u,
+                                  script=['nm -u <objects built from the tree>', u], suite='syms', found_input=True))
+    return writable, undef
+
+
+def extra_threads(ctx, pid, viol, stats):
+    """S-tsan + S-syms"""
+    import re
+    import subprocess
+    t0 = time.time()
+    st = stats.setdefault('threads', dict(evaluations=0, distinct=set(), samples=[], variants=['tsan'], wall=0.0, exhaustive=False, mismatches=0, hist={},
+                                          note='N threads on their own seeds under ThreadSanitizer (harness/threads.c): per-thread digest of every observable result, serial vs concurrent; yields injected through the dependency stubs; plus the writable-symbol inventory of the objects'))
+    symbol_inventory(ctx, viol, st, want_writable=True, want_undef=False)
+    exe, err = core.build_aux(ctx.tree, 'threads-tsan', 'threads.c', 'gcc', ['-O1', '-g', '-fsanitize=thread', '-DNDEBUG'], ['-lpthread', '-lutf8proc'])
+    if err:
+        viol.append(Violation('crash', 'threads-build', err, suite='threads'))
+        return
+    runs = [(16, 12), (4, 40), (32, 4)] if not ctx.thorough else [(16, 60), (4, 300), (32, 30), (64, 10), (2, 600)]
+    for nt, iters in runs:
+        env = dict(os.environ, TSAN_OPTIONS='halt_on_error=0:exitcode=66:second_deadlock_stack=1')
+        r = subprocess.run([exe, str(nt), str(iters)], stdout=subprocess.PIPE, stderr=subprocess.PIPE, text=True, env=env)
+        st['evaluations'] += nt * iters
+        races = r.stderr.count('WARNING: ThreadSanitizer')
+        diff = re.search(r'different=(\d+)', r.stdout)
+        st['hist']['%d threads x %d iterations' % (nt, iters)] = 'races=%d %s' % (races, diff.group(0) if diff else 'no-result')
+        for line in r.stdout.split('\n'):
+            if line.startswith('THREAD'):
+                st['distinct'].add(line.split('serial=')[1][:16])
+        if races or r.returncode == 66:
+            first = r.stderr[r.stderr.find('WARNING: ThreadSanitizer'):][:2500]
+            viol.append(Violation('oracle', 'data-race', 'ThreadSanitizer reports %d data race(s) with %d threads on disjoint seeds: %s' % (races, nt, first),
+                                  script=['harness/threads.c %d %d' % (nt, iters)], suite='threads', variant='tsan', found_input=True))
+        elif r.returncode != 0:
+            viol.append(Violation('crash', 'threads-crash', 'thread harness exited with %d: %s' % (r.returncode, r.stderr[-1500:]), script=['harness/threads.c %d %d' % (nt, iters)], suite='threads', found_input=True))
+        elif not diff or diff.group(1) != '0':
+            bad = [l for l in r.stdout.split('\n') if 'DIFFERENT' in l][:3]
+            viol.append(Violation('oracle', 'thread-results', 'with %d concurrent threads some thread observed results that differ from the serial execution of its own calls: %s' % (nt, bad),
+                                  script=['harness/threads.c %d %d' % (nt, iters)], suite='threads', variant='tsan', found_input=True))
+        if not st['samples']:
+            st['samples'].append(r.stdout.split('\n')[:3])
+    st['wall'] = time.time() - t0
+
+
+def extra_syms_undef(ctx, pid, viol, stats):
+    st = stats.setdefault('syms', dict(evaluations=0, distinct=set(), samples=[['nm -u / objdump -t of the objects compiled from the tree']], variants=['gcc -O2', 'gcc -O0'], wall=0.0, exhaustive=True, mismatches=0, hist={},
+                                       note='undefined-symbol inventory: no source of randomness or time other than the injected ones (libc time/malloc/free only as NULL fall-backs)'))
+    symbol_inventory(ctx, viol, st, want_writable=False, want_undef=True)
+
+
+def extra_malformed(ctx, pid, viol, stats):
+    """C14: the malformed stream, through every string/buffer entry point, under ASan+UBSan with inputs and output buffers flush against guard pages"""
+    t0 = time.time()
+    st = stats.setdefault('malformed', dict(evaluations=0, distinct=set(), samples=[], variants=['asan'], wall=0.0, exhaustive=False, mismatches=0, hist={},
+                                            note='raw bytes, invalid UTF-8, strings of STR_SIZE-3..STR_SIZE+3 and far longer, separator floods, grammar-based mutations of valid phrases, random and mutated 32-byte buffers; as phrase (both decoders, all languages), as password, as storage'))
+    rnd = ctx.rnd('malformed')
+    Ls = ctx.langs
+    S = Ls.consts['STR_SIZE']
+    script = [suites.INJECT, 'features 5', 'create 0 1']
+    strings = []
+    for n in [0, 1, 2, S - 3, S - 2, S - 1, S, S + 1, S + 2, 2 * S, 5000, 40000]:
+        strings.append(b'a' * n)
+        strings.append((b'ab ' * (n // 3 + 1))[:n])
+        strings.append(('é' * (n // 2 + 1)).encode()[:n])
+        strings.append((' '.join(['日本'] * (n // 7 + 1))).encode()[:n])
+        strings.append(b' ' * n)
+    for _ in range(400 if ctx.thorough else 80):
+        k = rnd.randrange(6)
+        if k == 0:
+            strings.append(bytes(rnd.randrange(1, 256) for _ in range(rnd.randrange(1, 600))))
+        elif k == 1:
+            strings.append(bytes(rnd.choice([0xC3, 0x28, 0xA0, 0xE2, 0x82, 0xF0, 0x90, 0x80, 0xFF, 0xFE, 0x20, 0x61]) for _ in range(rnd.randrange(1, 200))))
+        else:
+            li = rnd.randrange(Ls.n)
+            toks = [rnd.choice(Ls.words(li)) for _ in range(rnd.choice([15, 16, 16, 17, 30]))]
+            for _ in range(rnd.randrange(3)):
+                i = rnd.randrange(len(toks))
+                t = bytearray(toks[i])
+                if t:
+                    t[rnd.randrange(len(t))] = rnd.randrange(1, 256)
+                toks[i] = bytes(t)
+            sep = rnd.choice([b' ', b'  ', Ls.langs[li]['separator'], b'\xe3\x80\x80', b'\t', b'\xc2\xa0'])
+            strings.append(sep.join(toks))
+    for sx in strings:
+        if b'\x00' in sx:
+            continue
+        h = suites.hx(sx)
+        script.append('decode 1 %d %s' % (rnd.randrange(2048), h))
+        script.append('free 1')
+        script.append('decodex 1 %d %d %s' % (rnd.randrange(2048), rnd.randrange(Ls.n), h))
+        script.append('free 1')
+        if len(sx) < 3000:
+            script.append('crypt 0 ' + h)
+    for _ in range(600 if ctx.thorough else 150):
+        b = bytearray(rnd.randrange(256) for _ in range(32))
+        if rnd.random() < 0.6:
+            b[:8] = b'POLYSEED'
+        if rnd.random() < 0.5:
+            b[29] = 0xFF
+            b[31] = 0x70 | (b[31] & 7)
+        script.append('load 2 ' + bytes(b).hex())
+        script.append('free 2')
+    res = core.run_pair(ctx.tree, 'asan', script, 'malformed')
+    st['evaluations'] += res.ops
+    documented = {'decode': {'0', '1', '2', '3', '4', '6', '7'}, 'decodex': {'0', '1', '2', '3', '4', '6'}, 'load': {'0', '3', '4', '5', '6'}}
+    for op in res.c_ops:
+        st['distinct'].add(op.head[:200])
+        k = op.head.split()[0]
+        if op.kv('st') is not None:
+            st['hist'][k + '/st=' + op.kv('st')] = st['hist'].get(k + '/st=' + op.kv('st'), 0) + 1
+            if k in documented and op.kv('st') not in documented[k]:
+                viol.append(Violation('oracle', 'undocumented-status', '%s returned status %s, which is not one of its documented statuses' % (op.head[:100], op.kv('st')), script=[suites.INJECT, op.head], suite='malformed', variant='asan', found_input=True))
+            if op.kv('st') != '0' and op.kv('seed') not in (None, '-'):
+                viol.append(Violation('oracle', 'seed-on-failure', '%s failed but produced a seed' % op.head[:100], script=[suites.INJECT, op.head], suite='malformed', variant='asan', found_input=True))
+    if res.crash:
+        viol.append(Violation('crash', 'crash:malformed', 'the real code crashed / was stopped by a sanitizer or guard page: %s' % res.crash[:1500], script=context_script(script, res, len(res.c_ops) - 1) if res.c_ops else script[:5], suite='malformed', variant='asan', found_input=True))
+    for (i, head, text) in res.complaints:
+        viol.append(Violation('oracle', 'harness:' + text.split()[1], 'harness observed at "%s": %s' % (head[:100], text), script=[suites.INJECT, head], suite='malformed', variant='asan', found_input=True))
+    for (i, cb, mb) in res.mismatches[:3]:
+        st['mismatches'] += 1
+        viol.append(Violation('correspondence', 'corr:malformed', 'malformed input: code and model disagree at op %d (%s)' % (i, cb[0][:80]), script=context_script(script, res, i), expected=mb, observed=cb, suite='malformed', variant='asan'))
+    end = [h for h in res.header if h.startswith('# end')]
+    if res.c_ops:
+        st['samples'].append(res.c_ops[len(res.c_ops) // 3].block()[:3])
     st['wall'] = time.time() - t0
 
 
